@@ -29,6 +29,7 @@ import Pakhi.Props.C02
 import Pakhi.Lemmas.FrameInv
 import Pakhi.Lemmas.OutFrame
 import Pakhi.Lemmas.Relabel5
+import Pakhi.Lemmas.FrameX5
 
 namespace Pakhi
 namespace C19
@@ -176,6 +177,41 @@ theorem moved_fragment_normal_end (n : Nat) (prog : List Stmt) (g : GcMode) (f :
   have hr := moved_fragment_same_run n prog g f 0 prog (St.init w)
   rw [h, show relSt (shiftBy n) (St.init w) = St.init w from rfl] at hr
   exact ⟨_, hr, rfl, rfl, rfl, rfl, rfl⟩
+
+/-- **leftover bindings are invisible to code that shares no name with them** (the bindings half of the compose statement): let `X`
+    be bindings left in the outermost scope by earlier code — numbers, strings, booleans, nil, functions — and let the program mention
+    none of their names.  Then from any state with a non-empty scope stack whose pending loop bodies avoid those names too, the run
+    with `X` present is the run without it, with `X` still in place at the end: same statements, values, heap, output, world,
+    collections, fuel, and the very same error; for every collection schedule and fuel.  (`TX X` adds `X` in front of the outermost
+    scope, `Res.rn` maps the final state of a normal end and leaves errors untouched.) -/
+theorem leftover_bindings_are_invisible (X : Scope) (hX : NoRefs X) (prog : List Stmt) (hprog : avL (keysOf X) prog) (g : GcMode)
+    (f k : Nat) (cur : List Stmt) (s : St) (hd : Dom (keysOf X) s) (hcur : avL (keysOf X) cur) :
+    runLoop prog g f k cur (TX X s) = (runLoop prog g f k cur s).rn (TX X) :=
+  runLoop_frameX X hX prog hprog g f k cur s hd hcur
+
+/-- … for a whole program started from the initial state (`X` must not rebind the built-in constant either) -/
+theorem fragment_ignores_leftover_bindings (X : Scope) (hX : NoRefs X) (prog : List Stmt) (hprog : avL (keysOf X) prog) (g : GcMode)
+    (f : Nat) (w : World) :
+    runLoop prog g f 0 prog (TX X (St.init w)) = (runLoop prog g f 0 prog (St.init w)).rn (TX X) :=
+  runLoop_frameX X hX prog hprog g f 0 prog (St.init w) ⟨by simp [St.init], by simp [St.init]⟩ hprog
+
+/-- spelled out: same printed text and the same kind of ending -/
+theorem fragment_output_ignores_leftover_bindings (X : Scope) (hX : NoRefs X) (prog : List Stmt) (hprog : avL (keysOf X) prog) (g : GcMode)
+    (f : Nat) (w : World) :
+    (match runLoop prog g f 0 prog (TX X (St.init w)), runLoop prog g f 0 prog (St.init w) with
+      | .ok s', .ok s => s'.out = s.out ∧ s'.heap = s.heap ∧ s'.world = s.world
+      | .err e', .err e => e' = e
+      | .panic p', .panic p => p' = p
+      | .fuel, .fuel => True
+      | _, _ => False) := by
+  rw [fragment_ignores_leftover_bindings X hX prog hprog g f w]
+  cases runLoop prog g f 0 prog (St.init w) <;> simp [Res.rn, TX]
+
+/-- non-vacuity: a leftover `ক = ৫` and a program that prints a string -/
+example : NoRefs [(['k'], Val.num 0)] ∧ avL (keysOf [(['k'], Val.num 0)]) [Stmt.print (.str ['x'] ⟨1, []⟩) ⟨1, []⟩, .eos ⟨2, []⟩] := by
+  refine ⟨?_, ?_⟩
+  · intro kv hkv; simp at hkv; subst hkv; exact ⟨fun i h => Val.noConfusion h, fun i h => Val.noConfusion h⟩
+  · intro st hst; simp at hst; rcases hst with rfl | rfl <;> simp [avS, avE]
 
 end C19
 end Pakhi
